@@ -279,7 +279,9 @@ async def settle(w: World, quiet: float = 0.25, limit: float = 12.0):
             # the child has gone but the run has not been closed out yet (process exit -> executor shutdown in a
             # thread -> end-run takes a while under load) and the harness is not withholding any gate: in transit
             held = any(getattr(g, 'info', {}).get('held') and not g.is_set() for gs in w.gates.values() for g in gs)
-            in_transit = (w.procs and not w.alive() and w.state() == 'running' and not held)
+            # (also before the child exists: the state is already 'running' while the process is being spawned,
+            #  which can take longer than the quiet period on a cold machine)
+            in_transit = (not w.alive() and w.state() == 'running' and not held)
             # the child has been told to end (control file written) but is still alive, e.g. still starting under
             # load; not when a prompt is open and nobody answers (then it cannot get there)
             told = (os.path.exists(w.ctl) and w.alive() and w.state() == 'running' and not held and not w.open_prompts)
